@@ -18,9 +18,11 @@ verus! {
 //@include baseunit.rs
 //@include string.rs
 //@include digitchars.rs
-#[derive(Clone, Copy, PartialEq)]
+#[derive(Clone, Copy, PartialEq, Eq, Structural)]
 //@type Digits in core/src/output/numeric_parts.rs
+//@part numeric
 //@part digits
+//@part digits_repr
 //@autoslots
 } // verus!
 fn main() {}
